@@ -62,6 +62,8 @@ class World:
         self.fileno_next = 1000
         self.by_fileno = weakref.WeakValueDictionary()
         self.connect_hook = None    # optional callable(world, sock, addr) for gating
+        self.max_conn = 1500
+        self.runaway = False
 
     def log(self, **ev):
         with self.lock:
@@ -247,6 +249,11 @@ class FakeSock:
         self.addr = (host, port)
         w.clock.advance(w.rtt)
         factory = w.servers.get((host, port))
+        if w.nconn > w.max_conn:
+            # runaway guard: far beyond anything a conforming audit does; refuse from here on and let time pass so time-bounded loops end
+            w.runaway = True
+            w.clock.advance(1.0)
+            factory = None
         peer = factory(w, self.n, (host, port)) if factory is not None else None
         ok = peer is not None
         w.log(ev='connect', n=self.n, host=host, port=port, family=int(self.family), ok=ok,
